@@ -184,6 +184,38 @@ Definition run_extract (a : list val) : val :=
   | _ => v_bad
   end.
 
+(* extract_resp: args [target; fields; tids; frame; tcp]: the first request (in sorted order) of the
+   builder is handed an arbitrary response frame -- the type switch of ExtractFields (register
+   responses incl. FC23 and the FC6 echo, coil responses, everything else unsupported), fields of
+   the wrong kind, payloads of any length.  Outcome [0; strict; lenient] | [4] (frame does not
+   parse) | [5] (no request).  Correspondence only, no property is judged on it. *)
+Definition run_extract_resp (a : list val) : val :=
+  match a with
+  | [VI t; VL fvs; VL tids; VB frame; VI tcp] =>
+      match fields_of_vals 0 fvs with
+      | Some fields =>
+          match builder_read (zN t) fields with
+          | Ok reqs =>
+              match sort_by breq_leb reqs with
+              | r :: _ =>
+                  let parsed := if zbool tcp then map_ok snd (parse_tcp_response (exact frame))
+                                else parse_rtu_response_crc (exact frame) in
+                  let spare := if zbool tcp then [] else skipn (length frame - 2) frame in
+                  match parsed with
+                  | Ok p => v_ok [proj_xres (extract_fields r p spare false); proj_xres (extract_fields r p spare true)]
+                  | Err _ => VL [VI 4%Z]
+                  | Panic => v_panic
+                  end
+              | [] => VL [VI 5%Z]
+              end
+          | Err _ => v_err [VI 1%Z]
+          | Panic => v_panic
+          end
+      | None => v_bad
+      end
+  | _ => v_bad
+  end.
+
 (* decoding of an implementation outcome for the verdicts *)
 Definition aval_of_val (f : field) (v : val) : option aval :=
   match v with
@@ -294,5 +326,6 @@ Definition table_builder : list entry :=
        e_verdict := fun p a o => if p =? 6 then verdict_split_C06 a o else NOT_JUDGED |};
     {| e_name := "extract"; e_run := run_extract;
        e_verdict := fun p a o => if p =? 5 then verdict_extract_C05 a o
-                                 else if p =? 11 then verdict_extract_C11 a o else NOT_JUDGED |}
+                                 else if p =? 11 then verdict_extract_C11 a o else NOT_JUDGED |};
+    {| e_name := "extract_resp"; e_run := run_extract_resp; e_verdict := no_verdict |}
   ].
